@@ -27,6 +27,8 @@ CFG = {
         "Leptos.ServerFn.C13_pairs_roundtrip",
         "Leptos.ServerFn.C13_url_error_roundtrip",
         "Leptos.ServerFn.C13_decode_err_url_roundtrip",
+        "Leptos.ServerFn.C13_to_url_roundtrip",
+        "Leptos.ServerFn.C13_to_url_relative",
         "Leptos.ServerFn.C13_strip_removes_error_info",
         # pipeline
         "Leptos.ServerFn.C13_pipeline_refines_direct_partial",
@@ -36,6 +38,7 @@ CFG = {
         "Leptos.ServerFn.C13_table_methods_agree",
         "Leptos.ServerFn.C13_table_slot_mismatch",
         "Leptos.ServerFn.C13_status_rule",
+        "Leptos.ServerFn.hexCodec_roundtrip",
         # streaming text through the generic back end
         "Leptos.ServerFn.C13_text_stream_witness",
         "Leptos.ServerFn.C13_text_stream_full_false",
